@@ -50,6 +50,11 @@ claimed.update({
    text="Access units packetised by an independent RFC 6184/7798/3640 packetiser (tape-chosen aggregation, fragment sizes, sequence numbers across the 16-bit wrap) sent through a faulty datagram link (loss, burst loss, duplication, adjacent swap, displacement up to 3; fault-free runs separate) into the real rtp.Demuxer; oracle: equality with a reference depacketiser run over the arrival sequence (bytes, order, nothing invented, incomplete fragmented units yield nothing), one PTS per RTP timestamp, PTS differences proportional to timestamp differences.",
    note="Trusted: the reference packetiser/depacketiser in harness/oracle (written from the RFCs), SDP fixtures with parameter sets. Not generated: NAL units shorter than 3 bytes, filler NALs, a sender report arriving mid-stream, 32-bit RTP timestamp wrap."),
 })
+claimed.update({
+ "C08": dict(level="exploration", ref="§5 C08",
+   text="Generated frame sequences (H.264+AAC / H.265; IDR/IRAP, P, SEI, in-band parameter sets; 1 byte to 70 KiB; DTS bases 0, 1e6 s, just below 2^31 and 2^32 ms; PTS-DTS in {0,+80,-40} ms; audio older than the first video tag) pushed through the real flv.Muxer goroutine, stream FLV cache and the real HTTP-FLV handler/flv.Writer to 1-2 viewers joining at tape-chosen frames, with close-while-writing; an independent FLV+AMF0 reader checks header and type flags, PreviousTagSize chaining, metadata / decoder configuration (built from the actual parameter sets) / AAC configuration before media, one length-prefixed NAL per video tag equal to the source, key flag, audio payload, rebased timestamps and composition offsets.",
+   note="Trusted: the FLV/AMF0/avcC/hvcC reader in harness/oracle (written from the Adobe FLV and ISO 14496-15 layouts). Frames enter at media.Stream.WriteFrame (the RTP demuxer in front is C06's subject); the input dimension is sampled, simulation adds join point, goroutine interleaving and close-while-writing. WebSocket-FLV: see DESIGN.md."),
+})
 pending = {
 }
 not_applicable = {
